@@ -1299,6 +1299,11 @@ func (w *World) mayLockCall(p *Program, caller *ssa.Function, c *ssa.CallCommon)
 	case *ssa.Builtin:
 		return false, ""
 	}
+	// a function value whose static type is a named type of a package outside the repository (e.g.
+	// context.CancelFunc) was made by that package: A-EXT-NOLOCK applies to it as to any external call
+	if n, ok := c.Value.Type().(*types.Named); ok && n.Obj().Pkg() != nil && !strings.HasPrefix(n.Obj().Pkg().Path(), p.ModPath+"/") {
+		return false, ""
+	}
 	return true, "function value of unknown origin"
 }
 
